@@ -96,6 +96,49 @@ FN_BODIES = {
     'fb_with_call': ("-> int64",
                      "with u := default::mk('q') select 1"),
 }
+# functions reached by a history of CREATE / ALTER FUNCTION: (function to
+# call, statements).  A history with a rejected step is skipped and counted
+# (on the unchanged tree a declared non-Modifying volatility rejects a DML
+# body); an accepted one must give calls the MODIFICATIONS capability.
+_DMLB = "count((insert default::Log {{ msg := 'f' }}))"
+FN_HISTORIES = {
+    name: (call, [st.format(dml=_DMLB.format()) for st in sts])
+    for name, (call, sts) in {
+        'fh_volatile_alter': ('fh_volatile_alter', [
+            "create function default::fh_volatile_alter() -> int64 "
+            "{{ set volatility := 'Volatile'; using (1) }}",
+            "alter function default::fh_volatile_alter() using ({dml})"]),
+        'fh_stable_alter': ('fh_stable_alter', [
+            "create function default::fh_stable_alter() -> int64 "
+            "{{ set volatility := 'Stable'; using (1) }}",
+            "alter function default::fh_stable_alter() using ({dml})"]),
+        'fh_modifying_alter': ('fh_modifying_alter', [
+            "create function default::fh_modifying_alter() -> int64 "
+            "{{ set volatility := 'Modifying'; using (1) }}",
+            "alter function default::fh_modifying_alter() using ({dml})"]),
+        'fh_inferred_alter': ('fh_inferred_alter', [
+            "create function default::fh_inferred_alter() -> int64 "
+            "using (1)",
+            "alter function default::fh_inferred_alter() using ({dml})"]),
+        'fh_callee_declared': ('fh_caller_d', [
+            "create function default::fh_leaf_d() -> int64 using (1)",
+            "create function default::fh_caller_d() -> int64 "
+            "{{ set volatility := 'Volatile'; using (fh_leaf_d() + 0) }}",
+            "alter function default::fh_leaf_d() using ({dml})"]),
+        'fh_callee_inferred': ('fh_caller_i', [
+            "create function default::fh_leaf_i() -> int64 using (1)",
+            "create function default::fh_caller_i() -> int64 "
+            "using (fh_leaf_i() + 0)",
+            "alter function default::fh_leaf_i() using ({dml})"]),
+        'fh_alter_twice': ('fh_alter_twice', [
+            "create function default::fh_alter_twice() -> int64 "
+            "{{ set volatility := 'Volatile'; using (1) }}",
+            "alter function default::fh_alter_twice() using (2)",
+            "alter function default::fh_alter_twice() "
+            "{{ set volatility := 'Modifying'; using ({dml}) }}",
+            "alter function default::fh_alter_twice() using ({dml} + 1)"]),
+    }.items()
+}
 FN_CALLS = ['select {f}()', 'select ({f}(), 1)',
             'with z := {f}() select 1', 'for i in {{1, 2}} union {f}()',
             'select count({f}())', 'select <str>count({f}()) ++ ro("a")']
@@ -207,6 +250,23 @@ def winit():
             continue
         us = us2
         fns.append(name)
+    skipped = []
+    for name, (call, sts) in FN_HISTORIES.items():
+        us2 = us
+        try:
+            for st in sts:
+                c2 = edbcompiler.new_compiler_context(
+                    compiler_state=comp.state, user_schema=us2,
+                    modaliases={None: 'default'})
+                us2, _ = edbcompiler.compile_edgeql_script(
+                    c2, 'configure session set allow_dml_in_functions := '
+                    'true; ' + st + ';')
+        except Exception:
+            skipped.append(name)
+            continue
+        us = us2
+        fns.append(call)
+    _W['fn_histories_rejected'] = skipped
     _W['fns'] = fns
     _W.update(S=S, comp=comp, cmod=cmod, enums=enums, us=us,
               edbcompiler=edbcompiler, s_schema=s_schema, defines=defines,
@@ -309,7 +369,8 @@ def cases(quick):
                 inner = '(' + inner + ')'
                 q = t1.format(d=inner, d0='', du='', d0u='')
                 out.append((q, 'normal', True, None, f'{c1}>{c2}/{dn}'))
-    for fn in (_W.get('fns') or FN_BODIES):
+    for fn in (_W.get('fns') or
+               list(FN_BODIES) + [c for c, _ in FN_HISTORIES.values()]):
         for call in FN_CALLS:
             out.append((call.format(f=fn), 'normal', True, None,
                         f'fn-body/{fn}'))
